@@ -123,12 +123,11 @@ Theorem C12_tree_env_fresh : forall h T, NoDup (ids T) -> replay_ok T (ps_step h
 Proof. exact tree_env_fresh_all. Qed.
 Print Assumptions C12_tree_env_fresh.
 
-(* two-site scheme: proved for every ordered tree with 2..8 nodes (625 trees, pre-order ids); the general
-   statement  forall T, NoDup (ids T) -> tch T <> [] -> replay_ok T (ps2_step h T) = true  is not proved *)
-Theorem C12_ps2_env_fresh_upto8_partial :
-  forall n T, In n [2; 3; 4; 5; 6; 7; 8]%nat -> In T (trees_of_size n) -> replay_ok T (ps2_step 1 T) = true.
-Proof. exact ps2_env_fresh_upto8. Qed.
-Print Assumptions C12_ps2_env_fresh_upto8_partial.
+(* the same for the two-site scheme (evolve_2site reads the environments of the children of c, of the other children of
+   its parent and the parent's own; update_2site / update_1site / update_1bond rebuild what the next read needs) *)
+Theorem C12_ps2_env_fresh : forall h T, NoDup (ids T) -> replay_ok T (ps2_step h T) = true.
+Proof. exact ps2_env_fresh_all. Qed.
+Print Assumptions C12_ps2_env_fresh.
 
 (* energy: the same argument with the full checker (a local propagation with up-to-date environments acts with
    the true projected Hamiltonian and conserves <H>) *)
